@@ -7,6 +7,7 @@ import (
 	"errors"
 	"fmt"
 	"io"
+	"net"
 	"runtime"
 	"strconv"
 	"strings"
@@ -100,6 +101,7 @@ func builtinOthers() []other {
 
 type scenario struct {
 	tee      int // 0 off, 1 TeeIn, 2 TeeOut, 3 both
+	ck       int // kind of connection the session is created on (see connKinds)
 	explicit bool
 	state0   uint8
 	domain   int // index of the domainpart of the session's OWN address (origin)
@@ -191,6 +193,8 @@ func parseScenario(f []string) (sc scenario, err error) {
 		return sc, fmt.Errorf("short run line")
 	}
 	sc.tee, _ = strconv.Atoi(f[0])
+	sc.ck = sc.tee / 4 % 4 // the field carries tee + 4*kind
+	sc.tee %= 4
 	sc.explicit = f[1] == "1"
 	sc.domain, _ = strconv.Atoi(f[2])
 	sc.domain %= 4
@@ -515,6 +519,59 @@ func (c *ctx) tlsConfig(explicit bool) *tls.Config {
 	return &tls.Config{ServerName: "explicit.example", RootCAs: c.pki.pool, MinVersion: tls.VersionTLS12}
 }
 
+// The kinds of io.ReadWriter a session is created on.  Only kind 3 is secure.
+//
+//	0  a net.Conn in clear text
+//	1  a plain io.ReadWriter (nothing but Read and Write)
+//	2  a clear-text net.Conn wrapper that has a ConnectionState() method (a byte counter, a
+//	   logging connection): it satisfies the library's tlsConn interface and is not TLS
+//	3  a real *tls.Conn (client side, handshake not yet performed): already secure
+var connKinds = []string{"net.Conn", "io.ReadWriter", "net.Conn+ConnectionState()", "*tls.Conn"}
+
+type plainRW struct{ c clientConn }
+
+func (p plainRW) Read(b []byte) (int, error)  { return p.c.Read(b) }
+func (p plainRW) Write(b []byte) (int, error) { return p.c.Write(b) }
+
+type stateConn struct {
+	net.Conn
+	read, written int
+}
+
+func (c *stateConn) Read(p []byte) (int, error) {
+	n, err := c.Conn.Read(p)
+	c.read += n
+	return n, err
+}
+
+func (c *stateConn) Write(p []byte) (int, error) {
+	n, err := c.Conn.Write(p)
+	c.written += n
+	return n, err
+}
+
+// ConnectionState forwards the state of a wrapped *tls.Conn; here the wrapped connection is
+// clear text, so it is the zero value.
+func (c *stateConn) ConnectionState() tls.ConnectionState {
+	if tc, ok := c.Conn.(*tls.Conn); ok {
+		return tc.ConnectionState()
+	}
+	return tls.ConnectionState{}
+}
+
+func (c *ctx) conn(sc scenario, w *wire) io.ReadWriter {
+	base := clientConn{w}
+	switch sc.ck {
+	case 1:
+		return plainRW{base}
+	case 2:
+		return &stateConn{Conn: base}
+	case 3:
+		return tls.Client(base, &tls.Config{ServerName: domains[sc.domain], RootCAs: c.pki.pool, MinVersion: tls.VersionTLS12})
+	}
+	return base
+}
+
 // exec runs one scenario on the real code.  base is the StartTLS feature value
 // to use (nil: a fresh one).
 func (c *ctx) exec(sc scenario, base *xmpp.StreamFeature) (res result) {
@@ -682,7 +739,7 @@ func (c *ctx) exec1(sc scenario, base *xmpp.StreamFeature) (res result) {
 	defer cancel()
 	ok := common.WithTimeout(10*time.Second, func() {
 		res.panicked = common.Recover(func() {
-			s, err = xmpp.NewSession(cctx, sc.location(), sc.origin(), clientConn{w}, xmpp.SessionState(sc.state0), neg)
+			s, err = xmpp.NewSession(cctx, sc.location(), sc.origin(), c.conn(sc, w), xmpp.SessionState(sc.state0), neg)
 		})
 	})
 	out, tlsStart := w.snapshot()
